@@ -217,8 +217,14 @@ def run_mass(col):
     k = sym("kpen", True)
     fc1 = micro.container(it, fc.attrs["fields"][:1])
     cls = it.get("felupe.mechanics._multipoint:MultiPointConstraint")
-    item = it.call(cls, [fc1], dict(points=[0, 1], centerpoint=3, multiplier=k))
-    r = micro.dense(it.call(it.getattr(it.getattr(item, "assemble"), "vector"), [fc1], {}))
-    bad = [i for i in range(d) if not is_zero(sum((P(r[d * n + i, 0]) for n in range(np_)), ZERO))]
-    col.add("C14.O7", "MultiPointConstraint equilibrium", "constraint forces sum to zero per component", not bad, str(bad))
+    import itertools
+    for skip in itertools.product((False, True), repeat=d):
+        if all(skip):
+            continue
+        item = it.call(cls, [fc1], dict(points=[0, 1], centerpoint=3, multiplier=k, skip=skip))
+        r = micro.dense(it.call(it.getattr(it.getattr(item, "assemble"), "vector"), [fc1], {}))
+        bad = [i for i in range(d) if not is_zero(sum((P(r[d * n + i, 0]) for n in range(np_)), ZERO))]
+        skipped = [i for i in range(d) if skip[i] and any(P(r[d * n + i, 0]).t for n in range(np_))]
+        col.add("C14.O7", "MultiPointConstraint equilibrium skip=%s" % (skip,), "constraint forces sum to zero per component; no force on a skipped component", not bad and not skipped,
+                "mechanics/_multipoint.py MultiPointConstraint._vector: unbalanced components %s, forces on skipped components %s" % (bad, skipped))
     finish_info(col, it)
